@@ -103,6 +103,51 @@ def parse_impl(entry, dialect, text):
     return res, rest
 
 
+def first_diff(a, b, path="$"):
+    """path of the first structural difference between two library values (None if equal)"""
+    import dataclasses
+    if type(a) is not type(b):
+        return path + ":type(%s/%s)" % (type(a).__name__, type(b).__name__)
+    if dataclasses.is_dataclass(a):
+        for f in dataclasses.fields(a):
+            d = first_diff(getattr(a, f.name), getattr(b, f.name), path + "." + type(a).__name__ + "." + f.name)
+            if d: return d
+        return None
+    if isinstance(a, (tuple, list)):
+        if len(a) != len(b):
+            return path + ":len(%d/%d)" % (len(a), len(b))
+        for i, (x, y) in enumerate(zip(a, b)):
+            d = first_diff(x, y, path + "[%d]" % i)
+            if d: return d
+        return None
+    return None if a == b else path + ":value"
+
+
+def round_trip(stmt, st):
+    """C01 on one statement; returns (verdict, printed text or None)"""
+    from metasequoia_sql import SQLParser
+    try:
+        y = stmt.source(st)
+    except Exception as e:
+        return "print:" + err_kind(e).replace(" ", "_"), None
+    try:
+        again = SQLParser.parse_statements(y, sql_type=st)
+    except Exception as e:
+        return "reparse:" + err_kind(e).replace(" ", "_"), y
+    if len(again) != 1:
+        return "count:%d" % len(again), y
+    d = first_diff(stmt, again[0])
+    if d:
+        return "tree:" + d, y
+    if again[0] != stmt or hash(again[0]) != hash(stmt):
+        return "tree:eq", y
+    try:
+        y2 = again[0].source(st)
+    except Exception as e:
+        return "print2:" + err_kind(e).replace(" ", "_"), y
+    return ("ok" if y2 == y else "print2:differs"), y
+
+
 def respond(line, cfg_idx=None):
     parts = line.split(" ")
     op = parts[0]
@@ -124,6 +169,18 @@ def respond(line, cfg_idx=None):
             return "OK %d %s" % (rest, dump(res))
         except Exception as e:
             return err_kind(e)
+    if op == "RT":
+        from metasequoia_sql import SQLType, SQLParser
+        st = SQLType[parts[1]]
+        try:
+            stmts = SQLParser.parse_statements(unhex(parts[2]), sql_type=st)
+        except Exception as e:
+            return err_kind(e)
+        out = []
+        for s_ in stmts:
+            v, y = round_trip(s_, st)
+            out.append(v + ("" if y is None or v == "ok" else "|" + q(y)))
+        return "OK " + " ".join(out)
     if op == "PR":
         from metasequoia_sql import SQLType, SQLParser
         try:
